@@ -810,13 +810,23 @@ func closureWrites(s *goSite) string {
 	return bad
 }
 
+// nestedIn: f is a closure defined (transitively) inside cl — what it allocates is private to one run of cl.
+func nestedIn(f, cl *ssa.Function) bool {
+	for g := f; g != nil; g = g.Parent() {
+		if g == cl {
+			return true
+		}
+	}
+	return false
+}
+
 func isLocalTo(v ssa.Value, cl *ssa.Function) bool {
 	v = core.Strip(v)
 	switch x := v.(type) {
 	case *ssa.Alloc:
-		return x.Parent() == cl
+		return x.Parent() == cl || nestedIn(x.Parent(), cl)
 	case *ssa.MakeSlice:
-		return x.Parent() == cl
+		return x.Parent() == cl || nestedIn(x.Parent(), cl)
 	case *ssa.FieldAddr:
 		return isLocalTo(x.X, cl)
 	case *ssa.IndexAddr:
